@@ -462,16 +462,28 @@ def sdistEntry (mt : Int) (tarDir : String) (f : SdistFile) : TarMeta :=
 
 theorem sdistEntries_eq (sde : Option String) (p : SdistPlan) :
     sdistEntries sde p = (sortBy (fun f => f.rel) p.files).map (sdistEntry (archiveMtime sde) p.tarDir) ++
+      (match p.setupPy with
+        | some (d, n) => [cleanTarinfo (archiveMtime sde) (freshTarInfo (p.tarDir ++ "/setup.py") n d)]
+        | none => []) ++
       [cleanTarinfo (archiveMtime sde) (freshTarInfo (p.tarDir ++ "/PKG-INFO") p.pkgInfoSize p.pkgInfoDigest)] := rfl
+
+theorem mem_setupEntry (mt : Int) (tarDir : String) (su : Option (String × Nat)) (e : TarMeta)
+    (h : e ∈ (match su with
+      | some (d, n) => [cleanTarinfo mt (freshTarInfo (tarDir ++ "/setup.py") n d)]
+      | none => [])) :
+    ∃ d n, e = cleanTarinfo mt (freshTarInfo (tarDir ++ "/setup.py") n d) := by
+  cases su with
+  | none => simp at h
+  | some x => obtain ⟨d, n⟩ := x; simp at h; exact ⟨d, n, h⟩
 
 theorem sdistEntry_val (mt : Int) (tarDir : String) (f : SdistFile) :
     sdistEntry mt tarDir f =
       ⟨tarDir ++ "/" ++ posix f.rel, Gen.normalizeFilePermissions f.mode, 0, 0, "", "", mt, f.size, f.digest⟩ := rfl
 
-theorem sdist_files_congr (sde : Option String) (tarDir : String) (pd : String) (pn : Nat) (l l' : List SdistFile)
+theorem sdist_files_congr (sde : Option String) (tarDir : String) (pd : String) (pn : Nat) (su : Option (String × Nat)) (l l' : List SdistFile)
     (h : l.map (fun f => (f.rel, sdistEntry (archiveMtime sde) tarDir f)) =
          l'.map (fun f => (f.rel, sdistEntry (archiveMtime sde) tarDir f))) :
-    describeSdist sde ⟨tarDir, l, pd, pn⟩ = describeSdist sde ⟨tarDir, l', pd, pn⟩ := by
+    describeSdist sde ⟨tarDir, l, pd, pn, su⟩ = describeSdist sde ⟨tarDir, l', pd, pn, su⟩ := by
   unfold describeSdist
   rw [sdistEntries_eq, sdistEntries_eq]
   simp only
@@ -660,5 +672,77 @@ theorem recordRows_ne (di : String) (recs : List Rec) : ∀ r ∈ (recordRows di
 theorem record_csv_roundtrip (di : String) (recs : List Rec) :
     csvParse (recordText di recs).toList = (recordRows di recs).map (·.map String.toList) := by
   rw [recordText_toList, csv_roundtrip _ (recordRows_ne di recs)]
+
+
+/-! ## find_packages: the setup.py lists do not depend on the walk order -/
+
+theorem strLe_trans (a b c : String) (h1 : strLe a b = true) (h2 : strLe b c = true) : strLe a c = true :=
+  TransOrd.isLE_trans h1 h2
+
+theorem strLe_total (a b : String) : (strLe a b || strLe b a) = true := by
+  unfold strLe
+  rw [OrientedCmp.eq_swap (cmp := compare) (a := a) (b := b)]
+  cases compare b a <;> rfl
+
+theorem strLe_antisymm (a b : String) (h1 : strLe a b = true) (h2 : strLe b a = true) : a = b := by
+  unfold strLe at *
+  rw [OrientedCmp.eq_swap (cmp := compare) (a := a) (b := b)] at h1
+  have : compare b a = .eq := by cases h : compare b a <;> simp [h] at h1 h2 ⊢
+  exact (compare_eq_iff_eq.1 this).symm
+
+theorem sortStr_perm (l₁ l₂ : List String) (hp : l₁.Perm l₂) : sortStr l₁ = sortStr l₂ := by
+  unfold sortStr
+  apply List.Perm.eq_of_pairwise (le := fun a b => strLe a b = true)
+  · intro a b _ _ h1 h2; exact strLe_antisymm a b h1 h2
+  · exact List.pairwise_mergeSort strLe_trans strLe_total l₁
+  · exact List.pairwise_mergeSort strLe_trans strLe_total l₂
+  · exact (List.mergeSort_perm l₁ _).trans (hp.trans (List.mergeSort_perm l₂ _).symm)
+
+theorem subPkgs_perm (w w' : List WalkDir) (h : w'.Perm w) : (subPkgs w').Perm (subPkgs w) :=
+  (h.filter _).map _
+
+theorem nearestPkg_perm (n : String) (s s' : List PathKey) (h : s'.Perm s) (r : PathKey) :
+    nearestPkg n s' r = nearestPkg n s r := by
+  unfold nearestPkg
+  have : (fun i => s'.contains (List.take i r)) = (fun i => s.contains (List.take i r)) := by
+    funext i
+    have := h.mem_iff (a := List.take i r)
+    by_cases hm : List.take i r ∈ s
+    · simp [hm, this.2 hm]
+    · have hm' : List.take i r ∉ s' := fun x => hm (this.1 x)
+      simp [hm, hm']
+  rw [this]
+
+theorem dirEntries_perm (n : String) (s s' : List PathKey) (h : s'.Perm s) (d : WalkDir) :
+    dirEntries n s' d = dirEntries n s d := by
+  unfold dirEntries; rw [nearestPkg_perm n s s' h]
+
+theorem pkgDataPairs_perm (n : String) (w w' : List WalkDir) (h : w'.Perm w) :
+    (pkgDataPairs n w').Perm (pkgDataPairs n w) := by
+  unfold pkgDataPairs
+  apply List.Perm.cons
+  have e : dirEntries n (subPkgs w') = dirEntries n (subPkgs w) := by
+    funext d; exact dirEntries_perm n _ _ (subPkgs_perm w w' h) d
+  rw [e]
+  exact List.Perm.flatMap_right _ h
+
+
+theorem gen_setup_sorted : Gen.sdistPackagesSorted = true ∧ Gen.sdistPackageDataSorted = true := ⟨rfl, rfl⟩
+
+theorem setupPackages_perm (n : String) (w w' : List WalkDir) (h : w'.Perm w) :
+    setupPackages n w' = setupPackages n w := by
+  unfold setupPackages
+  simp only [gen_setup_sorted.1, if_true]
+  exact sortStr_perm _ _ (List.Perm.cons _ ((subPkgs_perm w w' h).map _))
+
+theorem setupPackageData_perm (n : String) (w w' : List WalkDir) (h : w'.Perm w) :
+    setupPackageData n w' = setupPackageData n w := by
+  unfold setupPackageData
+  have hp := pkgDataPairs_perm n w w' h
+  simp only [gen_setup_sorted.2, if_true]
+  rw [sortStr_perm _ _ (hp.map (·.1))]
+  apply List.map_congr_left
+  intro k _
+  rw [sortStr_perm _ _ ((hp.filter _).map _)]
 
 end Poetry.Build
